@@ -627,6 +627,13 @@ fn ev_code(e: &ReadEv) -> u8 {
 /// Run the used connection over the whole stream, then compare every post-error suffix
 /// with a fresh connection fed the same chunks.
 pub fn c11_differential(stream: &[u8], limit: Option<usize>, sched: &mut dyn FnMut(usize, usize, usize) -> ReadEv, obs: &mut Obs, render: &mut String) -> Result<usize, Fail> {
+    let mut handed = Vec::new();
+    c11_differential_fds(stream, limit, sched, obs, render, &mut handed)
+}
+
+/// same; `handed` receives the descriptor numbers the scripted stream actually passed to the
+/// used connection (the schedule may attach real descriptors to its reads)
+pub fn c11_differential_fds(stream: &[u8], limit: Option<usize>, sched: &mut dyn FnMut(usize, usize, usize) -> ReadEv, obs: &mut Obs, render: &mut String, handed: &mut Vec<RawFd>) -> Result<usize, Fail> {
     let mut u = ConnRun::new(stream.to_vec(), limit, true);
     let mut steps: Vec<UStep> = Vec::new();
     let mut window = buf_size();
@@ -647,6 +654,9 @@ pub fn c11_differential(stream: &[u8], limit: Option<usize>, sched: &mut dyn FnM
         }
         steps.push(UStep { ev_kind: ev_code(&ev), chunk: stream[before..u.consumed].to_vec(), res: st.res.clone(), reqs: st.reqs.clone(), out: st.out.clone(), got: st.got });
     }
+    *handed = u.ss.borrow().handed_fds.clone();
+    // the used connection (and every descriptor it still holds) goes away here
+    drop(u);
     let err_idx: Vec<usize> = steps.iter().enumerate().filter(|(_, s)| matches!(s.res, RRes::Parse(_, _))).map(|(i, _)| i).collect();
     if obs.want_render {
         render.push_str(&format!(
@@ -824,16 +834,52 @@ fn c11_ab(input: &Input, obs: &mut Obs) -> Result<(), Fail> {
     };
     let minwant = if stream.len() > 8192 { stream.len() / 256 } else { 1 };
     let mut render = String::new();
-    let compared = {
+    // optionally descriptors ride on reads of the rejected part: they must never reach a later request
+    let with_fds = s.chance(50);
+    let mut pipes: Vec<Pipe> = Vec::new();
+    let mut handed: Vec<RawFd> = Vec::new();
+    // only on reads that start before the fault is decidable: later reads belong to the continuation
+    let a_len = point;
+    let res = {
         let mut sch = |consumed: usize, total: usize, window: usize| {
             let ctx = SchedCtx { consumed, total, window, bounds: &bounds };
             match next_read(&mut s, &ctx, 16) {
-                ReadEv::Data { want, fds } => ReadEv::Data { want: want.max(minwant), fds },
+                ReadEv::Data { want, fds } => {
+                    let mut fds = fds;
+                    if with_fds && consumed < a_len && pipes.len() < 6 && s.chance(90) {
+                        for _ in 0..s.range(1, 2) {
+                            if let Some(p) = mkpipe(1000 + pipes.len() as u32) {
+                                fds.push(p.rd);
+                                pipes.push(p);
+                            }
+                        }
+                    }
+                    ReadEv::Data { want: want.max(minwant), fds }
+                }
                 e => e,
             }
         };
-        c11_differential(&stream, limit, &mut sch, obs, &mut render)?
+        c11_differential_fds(&stream, limit, &mut sch, obs, &mut render, &mut handed)
     };
+    // descriptor hygiene: what was handed over must be closed by now, the rest is still ours
+    let mut leaked = None;
+    for p in &pipes {
+        if handed.contains(&p.rd) {
+            if res.is_ok() && !read_end_closed(p.wr) {
+                leaked = Some(p.tag);
+            }
+        } else {
+            unsafe { libc::close(p.rd) };
+        }
+        unsafe { libc::close(p.wr) };
+    }
+    let compared = res?;
+    if let Some(t) = leaked {
+        return Err(Fail::new("C11:fd-retained", format!("a descriptor (tag {}) received with the rejected input is still open after the connection was dropped", t)));
+    }
+    if !pipes.is_empty() {
+        obs.label("descriptors_on_rejected_input");
+    }
     obs.nontrivial = compared > 0;
     if reqs_a.iter().any(|r| r.complete_at != usize::MAX) {
         obs.label("error_after_complete_requests");
@@ -1062,7 +1108,11 @@ fn c12_core(stream: &[u8], decide: &mut dyn FnMut(&ConnRun, usize) -> Option<(Re
                 Ok(st) => st.clone(),
                 Err(m) => return Err(Fail::new("C12:misuse", m)),
             };
-            let handed = run.ss.borrow().read_log.last().map(|r| r.nfds).unwrap_or(0);
+            let (handed, room, rkind) = run.ss.borrow().read_log.last().map(|r| (r.nfds, r.fd_room, r.kind)).unwrap_or((0, 0, 9));
+            if (rkind == 0 || rkind == 3) && room < these.len() {
+                // a real socket would have truncated the control message: the descriptors are lost
+                return Err(Fail::new("C12:room", format!("{} descriptors arrive with a read but the connection offered room for only {} (descriptors already pending: {})", these.len(), room, pool.len())));
+            }
             for (k, i) in these.iter().enumerate() {
                 if k < handed {
                     pipes[*i].handed = true;
@@ -1177,7 +1227,7 @@ fn c12_core(stream: &[u8], decide: &mut dyn FnMut(&ConnRun, usize) -> Option<(Re
 
 /// every descriptor count 0..=253 on one read: params = [k, placement]
 /// placement 0: with the whole first request; 1: with its first bytes only; 2: k split over two
-/// reads; 3: on a would-be-last read that completes two requests; 4: on the zero-byte read
+/// reads; 3: on a read that completes two requests; 4: on the zero-byte read; 5: k pending, then 253 more
 fn c12_count(input: &Input, obs: &mut Obs) -> Result<(), Fail> {
     let p = input.params();
     let k = p[0] as usize;
@@ -1192,6 +1242,7 @@ fn c12_count(input: &Input, obs: &mut Obs) -> Result<(), Fail> {
         1 => vec![(5, k), (r1.len() - 5, 0), (r2.len(), 1)],
         2 => vec![(7, k / 2), (r1.len() - 7, k - k / 2), (r2.len(), 0)],
         3 => vec![(r1.len() + r2.len(), k)],
+        5 => vec![(5, k), (9, 253), (r1.len() - 14, 0), (r2.len(), 2)],
         _ => vec![(r1.len(), 1), (r2.len(), 0), (0, k)],
     };
     let mut i = 0;
@@ -1211,7 +1262,11 @@ fn c12_count(input: &Input, obs: &mut Obs) -> Result<(), Fail> {
 fn c12_count_enum(_tier: Tier, shard: u64, nshards: u64, f: &mut dyn FnMut(&[u64]) -> bool) {
     let mut c = 0u64;
     for k in 0..=253u64 {
-        for placement in 0..5u64 {
+        for placement in 0..6u64 {
+            // placement 5 (k pending, then 253 more on the next read) for a few k only: 500 pipes each
+            if placement == 5 && !(k <= 2 || k == 127 || k >= 252) {
+                continue;
+            }
             c += 1;
             if c % nshards == shard && !f(&[k, placement]) {
                 return;
